@@ -88,22 +88,58 @@ Theorem C14_pool_encoder_sessions :
 Proof. exact lib_sessions_fresh. Qed.
 Print Assumptions C14_pool_encoder_sessions.
 
-(* decoders: FreeDecoder makes ANY decoder state observationally new -- mode, reference list,
-   class list, sticky error, all five options, input *)
-Theorem C14_reset_is_fresh_decoder :
+(* decoders: FreeDecoder = Simple(false).ResetBuffer() clears input, mode, reference list, class
+   list, error and all five options -- and keeps exactly one thing: dec.buf when a reader is
+   attached, WHOEVER that buffer belongs to *)
+Theorem C14_free_decoder_keeps_only_buffer :
+  forall (DR DC ER : Type) (dr0 : DR) (dc0 : DC) (s : dec DR DC ER),
+  free_dec DR DC ER dr0 dc0 s =
+  {| d_in := []; d_buf := if d_from_reader s then d_buf s else BufNil; d_from_reader := false;
+     d_simple := false; d_refer := dr0; d_cls := dc0; d_err := None; d_opts := opts0 |}.
+Proof. exact free_dec_char. Qed.
+Print Assumptions C14_free_decoder_keeps_only_buffer.
+
+(* guard: the buffer kept is not a slice of a caller *)
+Theorem C14_reset_is_fresh_decoder_partial :
   forall (DT DV DR DC ER : Type) (dr0 : DR) (dc0 : DC)
          (des : bool -> dopts -> DR -> DC -> option ER -> list byte -> DT -> des_res DV DR DC ER)
          (s : dec DR DC ER),
+  (d_from_reader s = true -> norm_buf (d_buf s) = BufNil) ->
   dec_fresh_equiv DT DV DR DC ER dr0 dc0 des (free_dec DR DC ER dr0 dc0 s).
-Proof. exact free_dec_fresh. Qed.
-Print Assumptions C14_reset_is_fresh_decoder.
+Proof. exact free_dec_fresh_partial. Qed.
+Print Assumptions C14_reset_is_fresh_decoder_partial.
 
-(* all histories of pooled decoder uses with ARBITRARY public operations inside each use *)
+(* reachable through the pool: GetDecoder().ResetBytes(mine) ... ResetReader(r) ... FreeDecoder: the pool
+   now holds a decoder whose read buffer is the first user's slice *)
+Theorem C14_reset_is_fresh_decoder_refuted :
+  ~ dec_fresh_equiv unit dval drefs unit cerr [] tt cdes (c_free_dec (fst (c_dec_run c_new_dec dhist_buf))).
+Proof. exact pool_dec_buffer_refuted. Qed.
+Print Assumptions C14_reset_is_fresh_decoder_refuted.
+
+(* what happens next: the NEXT user's input is read into the first user's slice (clobbers = true) ... *)
+Theorem C14_pooled_decoder_buffer_leak :
+  snd (c_dec_run (c_free_dec (fst (c_dec_run c_new_dec dhist_buf)))
+                 [DResetReader (bs "s19""secret-of-next-user"""); DDecode tt]) =
+  [ODUnit; ODecoded (DStr (bs "secret-of-next-user")) None true].
+Proof. exact pool_dec_buffer_leak. Qed.
+Print Assumptions C14_pooled_decoder_buffer_leak.
+
+(* ... and when that slice has length 0 the next reader-fed use never returns (loadMore spins) *)
+Theorem C14_pooled_decoder_hang :
+  snd (c_dec_run (c_free_dec (fst (c_dec_run c_new_dec dhist_hang))) [DResetReader (bs "i7;"); DDecode tt]) =
+  [ODUnit; ODHang].
+Proof. exact pool_dec_hang. Qed.
+Print Assumptions C14_pooled_decoder_hang.
+
+(* all histories of pooled decoder uses with ARBITRARY public operations inside each use, provided
+   each use takes its input from one kind of source (never ResetBytes, or never ResetReader: what
+   Formatter.Unmarshal, UnmarshalFromReader and the rpc codecs do), and all choices of the pool *)
 Theorem C14_pool_decoder_sessions :
   forall (DT DV DR DC ER : Type) (dr0 : DR) (dc0 : DC)
          (des : bool -> dopts -> DR -> DC -> option ER -> list byte -> DT -> des_res DV DR DC ER)
          (l : list (dsession DT)) (p : dpool DR DC ER),
   Forall (fun e => dec_same e (new_dec DR DC ER dr0 dc0)) p ->
+  Forall (fun ss => one_source (dss_ops ss) = true) l ->
   Forall (fun e => dec_same e (new_dec DR DC ER dr0 dc0)) (fst (dsessions_run DT DV DR DC ER dr0 dc0 des p l)) /\
   snd (dsessions_run DT DV DR DC ER dr0 dc0 des p l) =
     map (fun ss => snd (dec_run DT DV DR DC ER dr0 dc0 des (new_dec DR DC ER dr0 dc0) (dss_ops ss))) l.
@@ -115,8 +151,8 @@ Print Assumptions C14_pool_decoder_sessions.
    the previous input where NewDecoder would panic (index out of range) *)
 Theorem C14_decoder_simple_true_refuted :
   snd (c_dec_run (fst (c_dec_run (c_new_decoder dinput1) dhist)) dnext) =
-    [ODUnit; ODUnit; ODecoded (DStr (bs "hello")) None] /\
-  snd (c_dec_run (c_new_decoder []) dnext) = [ODUnit; ODUnit; ODecoded DPanic None].
+    [ODUnit; ODUnit; ODecoded (DStr (bs "hello")) None false] /\
+  snd (c_dec_run (c_new_decoder []) dnext) = [ODUnit; ODUnit; ODecoded DPanic None false].
 Proof. exact dec_simple_true_refuted. Qed.
 Print Assumptions C14_decoder_simple_true_refuted.
 
@@ -256,6 +292,21 @@ Example ex_sessions_obs :
     [OUnit; OFlushed (Some EUnsupported) None; OErr (Some EUnsupported); OBytes (bs "n")];
     [OUnit; OFlushed None None; OUnit; OFlushed None None; OBytes (bs "s2""ab""c2""CA""1{s1""a""}o0{n}")] ].
 Proof. exact sample_sessions_obs. Qed.
+(* a history of decoder uses (modes, options, a panicking and a failing input, a reader) meets the
+   guard of C14_pool_decoder_sessions; its observations, computed *)
+Example ex_dsessions_guard : Forall (fun ss => one_source (dss_ops ss) = true) sample_dsessions.
+Proof. exact sample_dsessions_one_source. Qed.
+Example ex_dsessions_obs :
+  snd (c_dsessions_run [] sample_dsessions) =
+  [ [ODUnit; ODUnit; ODUnit; ODecoded (DList [DStr (bs "hello"); DStr (bs "hello")]) None false];
+    [ODOpts opts0; ODUnit; ODecoded DPanic None false; ODErr None];
+    [ODUnit; ODUnit; ODecoded (DLong 0 5) None false; ODecoded DNil (Some EInvalidTag) false; ODErr (Some EInvalidTag)] ].
+Proof. exact sample_dsessions_obs. Qed.
+(* the history of the decoder refutation violates the guard of the partial theorem *)
+Example ex_guard_buf :
+  d_from_reader (fst (c_dec_run c_new_dec dhist_buf)) = true /\
+  d_buf (fst (c_dec_run c_new_dec dhist_buf)) = BufUser 20.
+Proof. exact dhist_buf_not_guarded. Qed.
 (* the refuting histories violate the guard of the partial theorem, one conjunct each *)
 Example ex_guard_writer : e_writer (fst (c_enc_run c_new_enc hist_writer)) = Some 1%N.
 Proof. exact hist_writer_not_clean. Qed.
